@@ -25,6 +25,8 @@ struct Case {
     bad_flag: Option<(usize, u8)>,
     free: bool,
     drip: bool,
+    /// replaces the encoded body: a body cut off inside a frame that declares a huge length
+    raw: Option<Vec<u8>>,
 }
 
 fn encode(c: &Case) -> (Vec<u8>, Vec<usize>) {
@@ -103,6 +105,9 @@ fn canon(t: &Trailers) -> Trailers {
 
 fn body(c: &Case, ch: &Chooser) -> Outcome {
     let (mut bytes, starts) = encode(c);
+    if let Some(r) = &c.raw {
+        bytes = r.clone();
+    }
     if let Some((k, f)) = c.bad_flag {
         bytes[starts[k]] = f;
     }
@@ -134,7 +139,9 @@ fn body(c: &Case, ch: &Chooser) -> Outcome {
     }
     // expected
     let msg_bytes: Vec<u8> = c.msgs.iter().flat_map(|(f, p)| wire::encode_frame(*f, p)).collect();
-    let malformed = if let Some(t) = c.truncate {
+    let malformed = if c.raw.is_some() {
+        Some("cut off inside a frame declaring a huge length")
+    } else if let Some(t) = c.truncate {
         // strictly inside a frame?
         let boundaries: Vec<usize> = starts.iter().copied().chain([full_len]).collect();
         if boundaries.contains(&t) { None } else { Some("truncated inside a frame") }
@@ -146,11 +153,11 @@ fn body(c: &Case, ch: &Chooser) -> Outcome {
     match malformed {
         Some(why) => {
             if got.error.is_none() {
-                let key = if c.truncate.is_some() { "truncated-no-error" } else { "bad-flag-no-error" };
+                let key = if c.truncate.is_some() || c.raw.is_some() { "truncated-no-error" } else { "bad-flag-no-error" };
                 o.violate(key, format!("{why}: expected an error, got order={} (clean end)", got.order));
             }
             // whatever was yielded before the error must be a prefix of the true message bytes
-            if !msg_bytes.starts_with(&data) {
+            if c.raw.is_none() && !msg_bytes.starts_with(&data) {
                 o.violate("data-not-a-prefix", format!("yielded data {} is not a prefix of the message frames {}", hex(&data), hex(&msg_bytes)));
             }
         }
@@ -228,7 +235,7 @@ fn cases(tier: Tier) -> Vec<Case> {
     for msgs in &msg_sets {
         for (ti, tr) in trailer_menu().into_iter().enumerate() {
             for space in [false, true] {
-                let base = Case { msgs: msgs.clone(), trailers: tr.clone(), space, truncate: None, bad_flag: None, free: false, drip: false };
+                let base = Case { msgs: msgs.clone(), trailers: tr.clone(), space, truncate: None, bad_flag: None, free: false, drip: false, raw: None };
                 let len = encode(&base).0.len();
                 out.push(Case { free: len <= free_limit, ..base.clone() });
                 out.push(Case { drip: true, ..base.clone() });
@@ -255,6 +262,25 @@ fn cases(tier: Tier) -> Vec<Case> {
             }
         }
     }
+    // a body that ends inside a frame whose prefix declares (almost) 4 GiB, after 0/1 complete frames
+    for lead in [false, true] {
+        for declared in [0xffff_fff0u32, 0xffff_fffa, 0xffff_fffb, 0xffff_fffc, 0xffff_ffff, 0x8000_0000, 0x7fff_ffff] {
+            for flag in [0u8, 0x80] {
+                for tail in [0usize, 3] {
+                    let mut raw = vec![];
+                    if lead {
+                        raw.extend(wire::encode_frame(0, &[7]));
+                    }
+                    raw.push(flag);
+                    raw.extend_from_slice(&declared.to_be_bytes());
+                    raw.extend(std::iter::repeat(0x41).take(tail));
+                    for drip in [false, true] {
+                        out.push(Case { msgs: vec![], trailers: trailer_menu()[0].clone(), space: false, truncate: None, bad_flag: None, free: false, drip, raw: Some(raw.clone()) });
+                    }
+                }
+            }
+        }
+    }
     out
 }
 
@@ -272,7 +298,7 @@ fn call_body(c: &CallCase, ch: &Chooser) -> Outcome {
     if !c.message.is_empty() {
         tr.push(("grpc-message".into(), c.message.as_bytes().to_vec()));
     }
-    let case = Case { msgs: c.msgs.iter().map(|m| (0u8, m.clone())).collect(), trailers: tr, space: false, truncate: None, bad_flag: None, free: false, drip: false };
+    let case = Case { msgs: c.msgs.iter().map(|m| (0u8, m.clone())).collect(), trailers: tr, space: false, truncate: None, bad_flag: None, free: false, drip: false, raw: None };
     let (bytes, _) = encode(&case);
     let inner = Canned { body: bytes, chunking: Chunking::Choose { free: false, pending: true, empty: false }, ch: ch.clone(), stats: Default::default() };
     let mut client = EchoClient::new(GrpcWebClientService::new(inner));
@@ -305,9 +331,9 @@ pub fn property(tier: Tier) -> Property {
     let a = Section::new(
         "client-body",
         Config { max_bound: tier.q(2, 3), hang_secs: 20, ..Default::default() },
-        "cases: grpc-web response bodies built by the independent encoder: 0..2 message frames (flags 0/1, payloads 0..3 bytes) + one 0x80 trailers frame over a trailer-map menu (values with ':' and spaces, repeated names, empty values, opaque non-UTF-8 bytes; 'k:v' and 'k: v' spellings), plus truncation at every byte and an invalid flag byte at every frame start; environment: every chunking (all compositions for bodies <= 21/24 bytes, otherwise <= bound cuts/Pending deviations) plus byte-by-byte drip through GrpcWebClientService over a scripted inner service; oracle: DATA concatenates to exactly the message-frame bytes, then exactly one trailers frame equal as a multimap to what was sent, then None; truncated inside a frame / bad flag => an error and never a clean end; no busy loop. Non-trivial = body delivered in more than one chunk, truncated or corrupted.",
+        "cases: grpc-web response bodies built by the independent encoder: 0..2 message frames (flags 0/1, payloads 0..3 bytes) + one 0x80 trailers frame over a trailer-map menu (values with ':' and spaces, repeated names, empty values, opaque non-UTF-8 bytes; 'k:v' and 'k: v' spellings), plus truncation at every byte, an invalid flag byte at every frame start, and bodies ending inside a frame whose prefix declares 2^31-1 .. 2^32-1 bytes; environment: every chunking (all compositions for bodies <= 21/24 bytes, otherwise <= bound cuts/Pending deviations) plus byte-by-byte drip through GrpcWebClientService over a scripted inner service; oracle: DATA concatenates to exactly the message-frame bytes, then exactly one trailers frame equal as a multimap to what was sent, then None; truncated inside a frame / bad flag => an error and never a clean end; no busy loop. Non-trivial = body delivered in more than one chunk, truncated or corrupted.",
         cases(tier),
-        |c: &Case| format!("msgs={:?} trailers={:?} space={} truncate={:?} bad_flag={:?} free={} drip={}", c.msgs, show(&c.trailers), c.space, c.truncate, c.bad_flag, c.free, c.drip),
+        |c: &Case| format!("msgs={:?} trailers={:?} space={} truncate={:?} bad_flag={:?} free={} drip={} raw={:?}", c.msgs, show(&c.trailers), c.space, c.truncate, c.bad_flag, c.free, c.drip, c.raw.as_ref().map(|r| hex(r))),
         body,
     )
     .mins(1000, 10, 100);
